@@ -53,7 +53,7 @@ namespace World
 
 /-- the effect of one removal on one order (`_process_runner_removal` loop body) -/
 def removalOnOrder (w : World) (m : Market) (rsel : Nat) (rhc : Rat) (raf : Option Rat) (o : Order) : Order :=
-  if o.sel = rsel ∧ o.hc = rhc then
+  if o.market = m.id ∧ o.sel = rsel ∧ o.hc = rhc then      -- order.lookup == (market_id, selection_id, handicap)
     -- cancel and void the order
     let voided := match o.sim.kind with
       | .limit => o.sim.size
